@@ -292,7 +292,7 @@ Definition sys_poll (fds : list (Z * Z)) (tmo : Z) : MW (Z * list Z) :=
 (* ---- paths, open, chdir, getcwd ---- *)
 Definition slash : Z := 47.
 Definition is_abs (p : str) : bool := match p with c :: _ => c =? slash | [] => false end.
-Definition ends_slash (p : str) : bool := match rev p with c :: _ => c =? slash | [] => false end.
+Definition ends_slash (p : str) : bool := last p 0 =? slash.   (* List.rev is quadratic *)
 Definition strip_dot_slash (p : str) : str :=
   match p with 46 :: 47 :: r => r | _ => p end.
 Definition abs_path (cwd p : str) : str :=
